@@ -2,6 +2,7 @@
 
 A merge case is a dict {'ro': xml text, 'msg': xml text, 'meta': {...}}.
 Every random choice derives from the random.Random instance passed in."""
+import copy
 import itertools
 from docs import (E, ABSENT, to_text, mos, payload, item, story, p, ro_create, ro_head,
                   story_send, story_append, story_delete, story_insert, story_move,
@@ -339,6 +340,32 @@ def merge_cases_padded():
         yield {'ro': ro, 'msg': to_text(doc), 'meta': dict(meta, cls=cls, n=2, layout='padded-ids-trimmed-refs')}
     for cls, doc, meta in item_level_messages([sids[1], 'B'], PADDED_ITEM_IDS, max_src=2):
         yield {'ro': ro, 'msg': to_text(doc), 'meta': dict(meta, cls=cls, n=2, para='padded-ids')}
+    yield from merge_cases_lookalike_ids()
+
+
+# IDs that are different strings but equal under some normalisation a careless comparison might apply: Unicode
+# composition, case, zero-width characters, numeric value
+LOOKALIKE_STORY_IDS = ['caf\u00e9', 'cafe\u0301', 'Caf\u00e9', '10', '010', '10.0', 'A\u200b']
+LOOKALIKE_ITEM_IDS = ['\u00e5', 'a\u030a', '1', '01']
+
+
+def merge_cases_lookalike_ids():
+    for sids in (LOOKALIKE_STORY_IDS[:3], LOOKALIKE_STORY_IDS[3:6], ['A', LOOKALIKE_STORY_IDS[6]]):
+        ro = to_text(make_ro(sids, layout='plain', items={s: LOOKALIKE_ITEM_IDS for s in sids}))
+        # references run over the later IDs of each family: a comparison that normalises finds the first one instead
+        for cls, doc, meta in story_level_messages(sids[1:], max_src=2, full_refs=False):
+            yield {'ro': ro, 'msg': to_text(doc), 'meta': dict(meta, cls=cls, n=len(sids), layout='lookalike-ids')}
+        for cls, doc, meta in item_level_messages([sids[-1]], LOOKALIKE_ITEM_IDS[1:], max_src=2):
+            yield {'ro': ro, 'msg': to_text(doc), 'meta': dict(meta, cls=cls, n=len(sids), para='lookalike-ids')}
+    # the message is addressed to another running order (or to none): merging does not look at the roID
+    ro = to_text(make_ro(['A', 'B', 'C'], layout='plain'))
+    for cls, doc, meta in list(story_level_messages(['A', 'B'], max_src=1, full_refs=False)) + list(item_level_messages(['B'], ITEM_IDS[:2], max_src=1)):
+        for rid in ('OTHER', None):
+            d2 = copy.deepcopy(doc)
+            e = d2[3].find('roID')
+            if e is not None:
+                e.text = rid
+                yield {'ro': ro, 'msg': to_text(d2), 'meta': dict(meta, cls=cls, n=3, layout='other-roid', para='other-roid')}
 
 
 def decoy_payload_messages(sids=('A', 'B'), its=('i1', 'i2')):
@@ -371,6 +398,9 @@ def merge_cases_decoy_payload():
         yield {'ro': ro, 'msg': to_text(doc), 'meta': dict(meta, cls=cls, n=2, layout='decoy-payload', para='decoy-payload')}
 
 
+# IDs in the style of newsroom systems: the part after the last comma is not the ID
+VENDOR_STORY_IDS = ['2012R2ENPS8VM;P_ENPSNEWS\\W;696F8FBE-1,4.15529413.1', 'OM_4.15529414,4.15529413.1', 'x,y,4.15529413.1']
+VENDOR_ITEM_IDS = ['ITEM;1,7', 'ITEM;2,7']
 SPECIAL_STORY_IDS = ["O'NEIL;2", 'a"b', 'x]y[z', 'a/b.c', '*']      # IDs are free text
 SPECIAL_ITEM_IDS = ["Jo's clip", 'i[1]', '@id', 'a=b']
 
@@ -383,6 +413,11 @@ def merge_cases_special_ids():
         yield {'ro': ro, 'msg': to_text(doc), 'meta': dict(meta, cls=cls, n=3, layout='special-ids')}
     for cls, doc, meta in item_level_messages([sids[1]], SPECIAL_ITEM_IDS[:2], max_src=2):
         yield {'ro': ro, 'msg': to_text(doc), 'meta': dict(meta, cls=cls, n=3, para='special-ids')}
+    vro = to_text(make_ro(VENDOR_STORY_IDS, layout='plain', items={s: VENDOR_ITEM_IDS for s in VENDOR_STORY_IDS}))
+    for cls, doc, meta in story_level_messages(VENDOR_STORY_IDS[1:], max_src=2, full_refs=False):
+        yield {'ro': vro, 'msg': to_text(doc), 'meta': dict(meta, cls=cls, n=3, layout='vendor-ids')}
+    for cls, doc, meta in item_level_messages([VENDOR_STORY_IDS[2]], VENDOR_ITEM_IDS, max_src=2):
+        yield {'ro': vro, 'msg': to_text(doc), 'meta': dict(meta, cls=cls, n=3, para='vendor-ids')}
     # the odd ID named but absent, in k-th position of a delete
     plain = to_text(make_ro(['A', 'B', 'C'], layout='plain'))
     for ids in (["O'NEIL"], ['A', "O'NEIL"], ['A', 'B', "it's"], ["x'y", 'A']):
